@@ -32,7 +32,7 @@ class Foo(HasTraits):
 
 
 KINDS = ["const", "anylist", "anydict", "list", "dict", "set", "inst", "factory", "dyn", "tuplelist", "tuple3",
-         "unionlist", "dictlist", "listlist", "anysublist", "anyodict", "dynenumdyn", "uniondef", "tupledef"]
+         "unionlist", "dictlist", "listlist", "anysublist", "anyodict", "dynenumdyn", "uniondef", "tupledef", "unionany", "unionanydict", "mapdyn"]
 
 
 class Tags(list):
@@ -49,6 +49,15 @@ def decl(kind):
     if kind == "uniondef":
         # the default given to the Union itself, as a plain list
         return Union(List(Int), None, default_value=[1]), [1]
+    if kind == "unionany":
+        # the FIRST member of the Union has a "copy this list" default
+        return Union(Any([1, 2]), Int), [1, 2]
+    if kind == "unionanydict":
+        return Union(Any({"a": 1}), None), {"a": 1}
+    if kind == "mapdyn":
+        # a mapped trait (it has a shadow attribute <name>_) whose default comes from a method
+        from traits.api import Map
+        return Map({"a": 1, "b": 2}), "a"
     if kind == "dynenumdyn":
         # a PROPERTY-style trait (its value lives in a cache slot) whose default comes from a method
         from traits.api import Enum
@@ -86,7 +95,7 @@ def decl(kind):
     raise AssertionError(kind)
 
 
-ASSIGN = {"uniondef": [3], "dynenumdyn": 3, "anysublist": [3], "anyodict": {"b": 2}, "const": 1, "anylist": [3], "anydict": {"b": 2}, "list": [3], "dict": {"b": 2}, "set": {3}, "inst": None,
+ASSIGN = {"unionany": [3], "unionanydict": {"b": 2}, "mapdyn": "b", "uniondef": [3], "dynenumdyn": 3, "anysublist": [3], "anyodict": {"b": 2}, "const": 1, "anylist": [3], "anydict": {"b": 2}, "list": [3], "dict": {"b": 2}, "set": {3}, "inst": None,
           "factory": [3], "dyn": [3], "tuplelist": ([3], 1), "tupledef": ([3], 1), "tuple3": ("s", {"q": 1}, 2), "unionlist": [3],
           "dictlist": {"q": [3]}, "listlist": [[3]]}
 
@@ -171,6 +180,15 @@ def run(case, ctx):
                     return 2
                 return _d
             ns["_%s_default" % nm] = mke(nm)
+        if k == "mapdyn":
+            def mkm(nm):
+                def _d(self):
+                    key = (self.__dict__.setdefault("_serial", -1 - len(dyncalls)), nm)
+                    dyncalls[key] = dyncalls.get(key, 0) + 1
+                    return "a"
+                return _d
+            ns["_%s_default" % nm] = mkm(nm)
+            ns["_%s__changed" % nm] = lambda self, old, new: None          # a listener on the SHADOW attribute <name>_
         if k == "dyn":
             def mk(nm):
                 def _d(self):
@@ -463,7 +481,9 @@ def run(case, ctx):
                     cur = oo.__dict__.get(n2, None) if n2 in oo.__dict__ else getattr(oo, n2)
                     if plain(cur) != v2:
                         ctx.fail("isolation/value" + fsig(n2), "instance #%d.%s changed to %r (model %r) by %s" % (jj, n2, plain(cur), v2, what))
-                extra_names = {n for n in oo.trait_names() if not n.startswith("v_")} - \
+                # (an instance's own use of a mapped attribute gives IT an instance copy of the shadow trait <name>_)
+                shadows = {n_ + "_" for n_, k_ in zip(names, kinds) if k_ == "mapdyn"}
+                extra_names = {n for n in oo.trait_names() if not n.startswith("v_") and n not in shadows} - \
                     set(class_names[1] if models[jj]["cls"] is Sub else class_names[0]) - models[jj]["extra"]
                 if extra_names:
                     ctx.fail("isolation/trait-definitions", "instance #%d lists traits %r that were only added elsewhere: %s"
